@@ -79,6 +79,20 @@ class Graph:
                 return True
         return False
 
+    NO_DROP = ('std::boxed::Box::<T, A>::leak', 'std::mem::forget', 'std::mem::ManuallyDrop::<T>::new',
+               'std::sync::Arc::<T>::into_raw', 'std::rc::Rc::<T>::into_raw', 'std::sync::Weak::<T>::into_raw',
+               'std::rc::Weak::<T>::into_raw', 'std::boxed::Box::<T>::new', 'std::sync::Arc::<T>::new', 'std::rc::Rc::<T>::new',
+               'std::cell::Cell::<T>::new', 'std::cell::Cell::<T>::set', 'std::iter::once', 'std::iter::Iterator::chain',
+               '<I as std::iter::IntoIterator>::into_iter', '<T as std::convert::Into<U>>::into', '<T as std::convert::From<T>>::from')
+
+    def _consumed_without_drop(self, inst, e):
+        """the by-value argument goes to a std function that stores / forgets it (no drop there)"""
+        for c in inst.get('calls', []):
+            if c['bb'] == e['bb'] and c['kind'] == 'call' and c.get('to') is not None:
+                if self.inst[c['to']]['path'] in self.NO_DROP:
+                    return True
+        return False
+
     def reach(self, start_ids, cut_cold=False):
         parent = {}
         seen = set(start_ids)
@@ -90,6 +104,8 @@ class Graph:
             for e in inst.get('calls', []):
                 to = e.get('to')
                 if to is None or to in seen:
+                    continue
+                if e['kind'] == 'arg-drop' and self._consumed_without_drop(inst, e):
                     continue
                 if cut_cold and self.is_cold(inst, e, self.inst[to]):
                     cut_used.add((self.fname(i), self.fname(to)))
@@ -140,6 +156,8 @@ class Graph:
         for e in inst.get('calls', []):
             to = e.get('to')
             if to is None or to not in nodes:
+                continue
+            if e['kind'] == 'arg-drop' and self._consumed_without_drop(inst, e):
                 continue
             if cut_cold and self.is_cold(inst, e, self.inst[to]):
                 continue
@@ -605,7 +623,7 @@ def rule_never_freed(fx, col):
     for b in fx.lib.bodies:
         for bb, t in b.calls():
             c = t['callee']
-            if 'debt::list::Node' in ' '.join(c.get('args', [])) and c.get('krate') in ('alloc', 'core', 'std'):
+            if 'debt::list::Node' in ' '.join(c.get('args', [])) and c.get('krate') in ('alloc', 'core', 'std') and 'boxed::Box' in c.get('path', ''):
                 nm = c.get('name')
                 if nm in ('default', 'new', 'leak'):
                     n_ctor += 1 if nm == 'leak' else 0
